@@ -574,9 +574,11 @@ func g9OnlyBoundInto(al *ssa.Alloc, held, into *ssa.MakeClosure) bool {
 // (the latitude flag and everything computed from it and from sign tests), the coordinate itself
 // (of which only the sign is known), or unknown.
 type g9Abs struct {
-	kind int // 0 unknown, 1 constant, 2 boolean, 3 the coordinate
+	kind int // 0 unknown, 1 constant, 2 boolean, 3 the coordinate, 4 a struct value
 	c    *ssa.Const
 	b    bool
+	// a struct value whose fields are known (an entry of a read-only table, ip_h5.go)
+	fields map[int]g9Abs
 }
 
 const (
@@ -584,6 +586,7 @@ const (
 	g9Constant
 	g9Boolean
 	g9Coord
+	g9Struct
 )
 
 type g9Frame struct {
@@ -652,9 +655,20 @@ func (e *g9Cases) eval(v ssa.Value, fr *g9Frame, depth int) g9Abs {
 			return h5ConstStringByte(xa.c, e.eval(x.Index, fr, depth))
 		}
 		return g9Abs{}
+	case *ssa.Field:
+		if a := e.eval(x.X, fr, depth); a.kind == g9Struct {
+			return a.fields[x.Field]
+		}
+		return g9Abs{}
 	case *ssa.UnOp:
 		if a, ok := fr.val[x]; ok {
 			return a // an element of a small local table, as it was where the load stands
+		}
+		if x.Op == token.MUL {
+			// an entry (or a field of an entry) of a read-only package-level table of constants
+			if a, ok := h5GlobalEntry(e.c, x.X); ok {
+				return a
+			}
 		}
 		switch x.Op {
 		case token.NOT:
@@ -931,7 +945,7 @@ func (l g9Line) labelAt() ssa.CallInstruction {
 }
 
 var g9WriteCalls = map[string]bool{
-	"fmt.Fprintf": true, "fmt.Fprint": true, "fmt.Fprintln": true, "fmt.Sprintf": true,
+	"fmt.Fprintf": true, "fmt.Fprint": true, "fmt.Fprintln": true, "fmt.Sprintf": true, "fmt.Appendf": true,
 	"bytes.Buffer.WriteString": true, "strings.Builder.WriteString": true, "io.WriteString": true,
 }
 
@@ -987,7 +1001,7 @@ func g9Lines(c *Ctx, fn *ssa.Function, chain []ssa.CallInstruction, conds []g9Co
 			}
 			var dst ssa.Value
 			sel := ""
-			if callName(com) != "fmt.Sprintf" && len(com.Args) > 0 {
+			if callName(com) != "fmt.Sprintf" && callName(com) != "fmt.Appendf" && len(com.Args) > 0 {
 				dst, sel = h5AddrKey(com.Args[0], chain)
 			}
 			literal := h5LiteralWrites[callName(com)]
@@ -1096,6 +1110,11 @@ func g9NonEmptyText(c *Ctx, fn *ssa.Function, v ssa.Value, at ssa.Instruction, c
 		site := chain[len(chain)-1]
 		a := g9ParamArg(x, site)
 		return a != nil && g9NonEmptyText(c, site.Parent(), a, site, chain[:len(chain)-1], depth)
+	case *ssa.Convert:
+		// string(b) / []byte(s): as long as the bytes
+		if isByteSliceOrString(x.X.Type()) && isByteSliceOrString(x.Type()) {
+			return g9NonEmptyText(c, fn, x.X, at, chain, depth+1)
+		}
 	case *ssa.BinOp:
 		// a concatenation is non-empty when one side is
 		if x.Op == token.ADD {
@@ -1110,6 +1129,17 @@ func g9NonEmptyText(c *Ctx, fn *ssa.Function, v ssa.Value, at ssa.Instruction, c
 		return len(x.Edges) > 0
 	case *ssa.Call:
 		n := callName(&x.Call)
+		if n == "fmt.Appendf" && len(x.Call.Args) >= 2 {
+			// the bytes appended to so far, plus a line: non-empty when the format has a literal prefix
+			// or what it is appended to is non-empty
+			if f, ok := g9FoldString(x.Call.Args[1], chain, 0); ok || f != "" {
+				vs, tail := parseVerbs(f)
+				if (len(vs) > 0 && strings.TrimSpace(vs[0].lit) != "") || (len(vs) == 0 && strings.TrimSpace(tail) != "") {
+					return true
+				}
+			}
+			return g9NonEmptyText(c, fn, x.Call.Args[0], at, chain, depth+1)
+		}
 		if n == "fmt.Sprintf" {
 			if f, ok := g9FoldString(x.Call.Args[0], chain, 0); ok || f != "" {
 				vs, tail := parseVerbs(f)
